@@ -217,6 +217,7 @@ func validateNonZero(v interface{}, name string) error {
 	if v == nil {
 		return nil
 	}
+	v = derefValidated(v)
 
 	if d, ok := v.(time.Duration); ok {
 		if d == 0 {
@@ -246,10 +247,26 @@ func validateNonZero(v interface{}, name string) error {
 	return ErrZeroValue
 }
 
+// derefValidated follows non-nil pointers, so that a value reached through a
+// pointer (a pre-filled *int, *time.Duration, ...) is validated like the value
+// itself. A nil pointer is returned as it is.
+func derefValidated(v interface{}) interface{} {
+	val := reflect.ValueOf(v)
+	if val.Kind() != reflect.Ptr || val.IsNil() {
+		return v
+	}
+	val = chaseValuePointers(val)
+	if val.Kind() == reflect.Ptr || !val.CanInterface() {
+		return v
+	}
+	return val.Interface()
+}
+
 func validatePositive(v interface{}, _ string) error {
 	if v == nil {
 		return nil
 	}
+	v = derefValidated(v)
 
 	if d, ok := v.(time.Duration); ok {
 		if d < 0 {
@@ -279,6 +296,7 @@ func validateMin(v interface{}, param string) error {
 	if v == nil {
 		return nil
 	}
+	v = derefValidated(v)
 
 	if d, ok := v.(time.Duration); ok {
 		min, err := param2Duration(param)
@@ -329,6 +347,7 @@ func validateMax(v interface{}, param string) error {
 	if v == nil {
 		return nil
 	}
+	v = derefValidated(v)
 
 	if d, ok := v.(time.Duration); ok {
 		max, err := param2Duration(param)
@@ -386,6 +405,8 @@ func validateRequired(v interface{}, name string) error {
 	if val.Kind() == reflect.Ptr && val.IsNil() {
 		return ErrRequired
 	}
+	v = derefValidated(v)
+	val = reflect.ValueOf(v)
 	if isInt(val.Kind()) || isUint(val.Kind()) || isFloat(val.Kind()) {
 		if err := validateNonZero(v, name); err != nil {
 			return ErrRequired
